@@ -898,4 +898,16 @@ theorem validate_agrees {caller : Key} {n : Nat} {m : MutSpec} {mem : Option Roo
           · rw [e2]; exact f
           · rw [ei, e3]; exact hid
 
+/-- the `need_room_admin` flag only grows along the groups of a mutation -/
+theorem validateGroups_need_true {caller : Key} {d : Int} {gs : List GroupSpec} {r r' : Room} {need : Bool}
+    (h : validateGroups caller d r true gs = .ok (r', need)) : need = true := by
+  induction gs generalizing r with
+  | nil => simp only [validateGroups, Except.ok.injEq, Prod.mk.injEq] at h; exact h.2.symm
+  | cons g t ih =>
+    simp only [validateGroups] at h
+    split at h
+    · cases h
+    · simp only [Bool.true_or] at h
+      exact ih h
+
 end Discret.RoomBuild
